@@ -28,11 +28,23 @@ def _locate(prog, qual):
     return "flodym_arrays.py", None, qual
 
 
+def group_of(case):
+    """the abstract input with every storage order forgotten"""
+    d = dict(case.inp)
+    if "selector_kinds" in d and "x_dims" in d:
+        d["sel"] = tuple(sorted(zip(d.pop("x_dims"), d.pop("selector_kinds"))))
+    for k in ("x_dims", "y_dims", "dims", "arg", "target_dims", "over", "items_from"):
+        if k in d:
+            d[k] = tuple(sorted(d[k]))
+    return (case.family, case.op, tuple(sorted((k, str(v)) for k, v in d.items())))
+
+
 def _worker(prog, rep, job):
     pid, families, aspects, idx, n, tier = job
     mod = __import__(f"fdv.props.{pid.lower()}", fromlist=["x"])
     fails = {}
     taints = {}
+    groups = {}
     ncases = 0
     for fam in families:
         base, _, lmode = fam.partition("@")
@@ -55,6 +67,8 @@ def _worker(prog, rep, job):
             rep.evaluations += 1
             for t in case.taint:
                 taints[t[:200]] = taints.get(t[:200], 0) + 1
+            if ("*", "order-independence") in aspects and case.canon is not None:
+                groups.setdefault(group_of(case), {}).setdefault(case.canon, (case.qual, case.inp))
             for v in case.verdicts:
                 rule = aspects.get((case.family, v.aspect)) or aspects.get(("*", v.aspect))
                 if rule is None:
@@ -65,7 +79,7 @@ def _worker(prog, rep, job):
                     k = (rule, case.qual)
                     c = fails.get(k)
                     fails[k] = (c[0] + 1, c[1], c[2]) if c else (1, case.inp, v.msg)
-    return fails, taints, ncases
+    return fails, taints, ncases, groups
 
 
 def run_array_property(prog, rep, pid, families, aspects, floors=None):
@@ -74,7 +88,12 @@ def run_array_property(prog, rep, pid, families, aspects, floors=None):
     jobs = [(pid, families, aspects, i, N_CHUNKS, rep.tier) for i in range(N_CHUNKS)]
     parts = pmap(_worker, jobs, prog, rep)
     fails, taints, total = {}, {}, 0
-    for f, t, n in parts:
+    groups = {}
+    for f, t, n, g in parts:
+        for gk, canons in g.items():
+            tgt = groups.setdefault(gk, {})
+            for c, where in canons.items():
+                tgt.setdefault(c, where)
         total += n
         for k, (count, inp, msg) in f.items():
             c = fails.get(k)
@@ -82,6 +101,22 @@ def run_array_property(prog, rep, pid, families, aspects, floors=None):
         for k, v in t.items():
             taints[k] = taints.get(k, 0) + v
     rep.extra["abstract_evaluations"] = total
+    rule_oi = aspects.get(("*", "order-independence"))
+    if rule_oi:
+        from .. import npmodel as NP
+        for gk, canons in sorted(groups.items(), key=lambda kv: repr(kv[0])):
+            ok = len(canons) == 1
+            rep.oblige(rule_oi, ok, where=gk[1], what=str(gk[2]), distinct=(rule_oi, gk))
+            if not ok:
+                items = list(canons.items())
+                (c1, (q1, i1)), (c2, (q2, i2)) = items[0], items[1]
+                def sh(c):
+                    return (f"entry {NP.show(c[2])} over {sorted(str(a) for a in c[1])[:4]}" if len(c) == 3 and isinstance(c[2], tuple) else str(c[1:]))
+                k = (rule_oi, q1)
+                msg = (f"the result depends on the storage order of the dimensions: input {i1} gives {sh(c1)[:300]} but the same "
+                       f"labelled input stored as {i2} gives {sh(c2)[:300]}")
+                cnt = fails.get(k)
+                fails[k] = (cnt[0] + 1, cnt[1], cnt[2]) if cnt else (1, i1, msg)
     if taints:
         rep.notes.append("position/length-dependent control flow met in the analysed code; for those cases the verdict is "
                          "exhaustive over the enumerated representatives only (bounded), not for all lengths/positions: "
